@@ -1,9 +1,13 @@
 (** C01: printer used by the correspondence check only. *)
 From Coq Require Import List Arith ZArith Bool String.
-From TwLib Require Import Show DeferredK DeferredKShow.
+From TwLib Require Import Show DeferredK DeferredKShow DeferredKR DeferredKRShow.
 Import ListNotations.
 
 (** the model of the repaired loop (fixes/C01-paused-chainee-strands-outer.patch) *)
 Definition run_show (p : program) : string := show_program true p.
 (** the model of the pinned loop, used to recognise the recorded defect F1 *)
 Definition run_show_pinned (p : program) : string := show_program false p.
+
+(** programs whose callbacks run kernel operations (scripts) are evaluated on the re-entrant kernel DeferredKR *)
+Definition show_any (c : program + rprogram) : string :=
+  match c with inl p => run_show p | inr p => show_rprogram p end.
